@@ -253,6 +253,16 @@ PROPS.update({
                "'am I last?' decision and the release, and inside upgrade."),
         technique="Lean 4 proof (invariants over call sequences and over all interleavings; kernel-checked counterexample for the pre-repair protocol) + forced-schedule correspondence",
         design_ref="DESIGN.md §6 C03"),
+    "C16": dict(obs_prop(["EyeballVerif.Props.C16"],
+        "c16_free_acquires / c16_write_same_as_sync: with the lock free every call completes on its first poll with exactly the default flavour's effect; c16_release_wakes_head / c16_release_partial: "
+        "who is woken by a release (FIFO); c16_acquire_fair / c16_release_fair: nobody overtakes a waiter; c16_granted_sub_polls_like_sync: a subscriber that got the lock answers what the default flavour answers",
+        [{"name": "obsasync"}], extra_tb=["tokio::sync::RwLock modelled as a FIFO permit semaphore (read = 1 permit, write = all permits; released permits go to queued waiters first, a waiter is woken when it has all its permits), read from tokio 1.53.1"]),
+        claim=("Lean 4: the async-lock flavour is run against the same operation-level model as the default flavour, so the theorems of C01-C03 (oinv_run, c01_poll_spec, c02_*, c03_*) are the statement of its "
+               "value / notification / wakeup / end-of-stream rules; what is specific to the flavour — futures that may have to wait for the tokio RwLock — is modelled by a FIFO permit semaphore with "
+               "theorems c16_* about waking queued waiters on release. Tied to the code by the exhaustive obs histories replayed on new_async objects with every future polled by a hand-rolled executor "
+               "(first poll must be Ready when no guard is held) and by histories holding read/write guards across other calls."),
+        technique="Lean 4 proof (shared model + semaphore lemmas) + model/implementation correspondence on the async flavour",
+        design_ref="DESIGN.md §6 C16"),
     "C04": dict(obs_prop(["EyeballVerif.Props.C04"],
         "c04_mutual_exclusion (guards exclude, from WInv, every reachable state), c04_value_frame (only the store segment changes the value and it records what it replaced), c04_set_chain (along every run the "
         "stores form a chain from the initial to the final value), c04_reads_current, c04_observed_monotone",
